@@ -254,6 +254,60 @@ fn isolated(threads: usize, rounds: usize, yield_every: u64) -> Result<(u64, Str
     Ok(((threads * rounds * ISOLATED.len()) as u64, format!("{threads} threads x {rounds} rounds x {} functions agree with the sequential run", ISOLATED.len())))
 }
 
+/// one shared function value whose *sites* (type tests, type arms, value arms, type filters, operators over unions) see
+/// values of a different runtime type from every thread at the same time: anything an implementation remembers per
+/// site (inline caches, memoised verdicts) must not leak between threads. Each call's result is compared with the
+/// sequential result for the same argument.
+fn shared_sites(threads: usize, rounds: usize, yield_every: u64) -> Result<(u64, String), String> {
+    let f = parse_function(
+        "(v: int|float|string|[int]|(int, int)|bool, n: int) -> [int] { \
+            a := mut 0; b := mut 0; c := mut 0; d := mut 0; e := mut 0; i := mut 0; \
+            while *i < n { i += 1; \
+                if x: int = v { a += 1; } \
+                if s: string|[int] = v { b += 1; } else { b += 100; } \
+                m1 := match v { p: int|float => 1, q: string => 2, r: [int] => 3, t: (int, int) => 4, u: bool => 5, }; c += m1; \
+                m2 := match v { 1, 2.5, \"s\" => 7, [1], (1, 2), true => 8, => 9, }; d += m2; \
+                e += std.len([v, 1, \"x\", 2.5]~ ? int|string $]) + std.len([v]~ ? (int, int)|[int] $]); \
+                w := mut 0; while y: float|bool = v { w += 1; if *w > 1 { break } } e += *w * 1000; \
+            } \
+            return [*a, *b, *c, *d, *e] }",
+    )
+    .ok_or("shared-sites function rejected")?;
+    let args: Vec<Variable> = vec![
+        Variable::Int(1), Variable::Float(2.5), Variable::String(Arc::from("s")), Variable::from(vec![Variable::Int(1)]),
+        Variable::Tuple(Arc::from([Variable::Int(1), Variable::Int(2)])), Variable::Bool(true), Variable::Int(7), Variable::String(Arc::from("other")),
+        Variable::from(Vec::<Variable>::new()), Variable::Float(0.5), Variable::Bool(false), Variable::Tuple(Arc::from([Variable::Int(3), Variable::Int(4)])),
+    ];
+    let run = |f: &Arc<Function>, v: &Variable, n: usize| -> String {
+        match real::guarded(|| f.clone().create_call(vec![v.clone(), Variable::Int(n as i64)]).map(|c| c.exec())) {
+            Ok(Ok(Ok(v))) => canon(&v),
+            Ok(other) => format!("ERR {other:?}"),
+            Err(p) => format!("PANIC {} {}", p.site(), p.short_msg()),
+        }
+    };
+    let seq: Vec<String> = args.iter().map(|v| run(&f, v, rounds)).collect();
+    let barrier = Arc::new(Barrier::new(threads));
+    let args = Arc::new(args);
+    let mut handles = Vec::new();
+    for t in 0..threads {
+        let (f, args, barrier) = (f.clone(), args.clone(), barrier.clone());
+        handles.push(std::thread::Builder::new().stack_size(64 << 20).spawn(move || {
+            verif::set_yield_every(if yield_every == 0 { 0 } else { yield_every + t as u64 % 2 });
+            barrier.wait();
+            // every thread sticks to "its" argument for a whole call, so the sites see interleaved types
+            (0..3).map(|k| { let i = (t + k * 5) % args.len(); (i, run(&f, &args[i], rounds)) }).collect::<Vec<_>>()
+        }).map_err(|e| format!("spawn: {e}"))?);
+    }
+    for (t, h) in handles.into_iter().enumerate() {
+        for (i, got) in h.join().map_err(|_| "worker thread died".to_string())? {
+            if got != seq[i] {
+                return Err(format!("thread {t}: the shared function called with {} gave {} while other threads ran it with other arguments, {} when run alone", canon(&args[i]), truncate(&got, 120), truncate(&seq[i], 120)));
+            }
+        }
+    }
+    Ok(((threads * 3 * rounds) as u64, format!("{threads} threads x 3 calls x {rounds} passes through 7 shared type-test / match / filter sites with {} kinds of argument agree with the sequential run", args.len())))
+}
+
 /// some threads increment a shared cell, others apply compound assignments that *fail* (division by zero, shift out
 /// of range, negative exponent): every failing assignment must report its documented error and leave the cell as it
 /// was, so the final content is start + number of increments and nobody ever sees a non-int
@@ -645,6 +699,7 @@ pub fn child(spec: &str) {
             "appends" => appends(threads, size, yld),
             "reads" => single_reads(threads.max(2), size, yld),
             "printing" => printing_nested(threads.max(2), size, yld),
+            "sites" => shared_sites(threads.max(2), size, yld),
             r if r.starts_with("cross") => cross_cells(r[5..].parse().unwrap_or(0), threads.max(2), size, yld),
             other => Err(format!("unknown scenario {other}")),
         }
@@ -678,7 +733,8 @@ pub fn run(cfg: &Cfg, rep: &mut Report) {
         }
         let threads = *rng.pick(&[2usize, 2, 3, 4, 4, 8, 16]);
         let yld = *rng.pick(&[0usize, 0, 1, 2, 5]);
-        let (scenario, size) = match rng.below(22) {
+        let (scenario, size) = match rng.below(24) {
+            22 | 23 => ("sites".to_string(), *rng.pick(&[100usize, 1000, 4000])),
             20 | 21 => (format!("cross{}", rng.below(12)), *rng.pick(&[50usize, 500, 5000])),
             16 | 17 => ("appends".to_string(), *rng.pick(&[20usize, 100, 400])),
             18 => ("reads".to_string(), *rng.pick(&[50usize, 300, 1000])),
